@@ -249,7 +249,7 @@ fn run_family(cx: &mut Ctx, fx: &Fix, fam: &'static str, key: &str, cfgs: &[Vec<
 					let m = minimise(fx, fam, c, oracle);
 					viols.push((base_order + i as u64, Viol {
 						oracle,
-						identity: format!("{}|{}|{}", oracle, fam, desc(fam, &m)),
+						identity: crate::rt_identity(oracle, fam, &detail, &desc(fam, &m)),
 						detail: format!("[{} {}] {}", fam, desc(fam, c), detail),
 						replay: json!({"fam": format!("b12-{}", fam), "cfg": m}),
 						rank: 0,
@@ -313,7 +313,14 @@ pub fn run(cx: &mut Ctx) {
 	// offers that are not expired and valid; all request settings
 	let req_cfgs = product(
 		&sizes("invreq"),
-		&[(2, vec![0, 1, 2, 3]), (5, vec![0, 1]), (6, vec![0]), (7, vec![0]), (4, if thorough { vec![0, 1, 2, 3, 4] } else { vec![0, 2, 3] })],
+		&[
+			(2, vec![0, 1, 2, 3]),
+			(3, if thorough { vec![0, 1, 2, 3, 4] } else { vec![0, 2, 4] }),
+			(4, if thorough { vec![0, 1, 2, 3, 4] } else { vec![0, 3] }),
+			(5, vec![0, 1]),
+			(6, vec![0]),
+			(7, vec![0]),
+		],
 	);
 	let _ = run_family(cx, fx, "invreq", "invreq", &req_cfgs, 2 << 32);
 
@@ -338,14 +345,26 @@ pub fn run(cx: &mut Ctx) {
 	// ---- refunds ---------------------------------------------------------------------------
 	let refunds = product(&sizes("refund"), &[]);
 	let refund_bytes = run_family(cx, fx, "refund", "refund", &refunds, 4 << 32);
-	let rinv_cfgs = product(&sizes("refund-invoice"), &[(2, vec![0, 1, 3]), (3, vec![0, 2]), (4, vec![0, 3]), (5, vec![0, 1]), (6, vec![1]), (7, vec![0])]);
+	// invoice options at positions 8.. : paths, relative expiry, fallbacks, mpp, created_at
+	let ic_small: Vec<(usize, Vec<u8>)> = if thorough { vec![] } else { vec![(9, vec![0, 3]), (10, vec![0, 4]), (12, vec![0, 2, 3])] };
+	let mut r = vec![(2, vec![0, 1, 3]), (3, vec![0, 2]), (4, if thorough { vec![0, 3] } else { vec![0] }), (5, if thorough { vec![0, 1] } else { vec![0] }), (6, vec![1]), (7, vec![0])];
+	r.extend(ic_small.clone());
+	let rinv_cfgs = product(&sizes("refund-invoice"), &r);
 	let rinv_bytes = run_family(cx, fx, "refund-invoice", "refund_invoice", &rinv_cfgs, 5 << 32);
 
 	// ---- static invoices --------------------------------------------------------------------
-	let st_cfgs = product(
-		&sizes("static"),
-		&[(0, vec![3]), (2, vec![0, 2]), (3, vec![0, 2]), (4, vec![0, 1, 2, 3]), (5, vec![0, 1]), (6, vec![0, 2]), (7, vec![0])],
-	);
+	let mut r = vec![
+		(0, vec![3]),
+		(1, if thorough { vec![0, 1, 2] } else { vec![1, 2] }),
+		(2, vec![0, 2]),
+		(3, if thorough { vec![0, 2] } else { vec![0] }),
+		(4, if thorough { vec![0, 1, 2, 3] } else { vec![0, 2] }),
+		(5, vec![0, 1]),
+		(6, if thorough { vec![0, 2] } else { vec![0] }),
+		(7, vec![0]),
+	];
+	r.extend(ic_small.clone());
+	let st_cfgs = product(&sizes("static"), &r);
 	let st_bytes = run_family(cx, fx, "static", "static", &st_cfgs, 6 << 32);
 
 	// ---- single-bit flips --------------------------------------------------------------------
@@ -378,12 +397,12 @@ pub fn run(cx: &mut Ctx) {
 			flip_jobs.push((Kind::InvoiceRequest, b, json!({"family": "invreq", "cfg": c})));
 		}
 	}
-	let q = if thorough { 1 } else { 8 };
-	pick(&inv_cfgs, &inv_bytes, "invoice", Kind::Invoice, 331 / q, &mut flip_jobs);
-	pick(&rinv_cfgs, &rinv_bytes, "refund-invoice", Kind::Invoice, 2111 / q, &mut flip_jobs);
-	pick(&st_cfgs, &st_bytes, "static", Kind::StaticInvoice, 1201 / q, &mut flip_jobs);
-	pick(&offers, &offer_bytes, "offer", Kind::Offer, 1013 / q, &mut flip_jobs);
-	pick(&refunds, &refund_bytes, "refund", Kind::Refund, 487 / q, &mut flip_jobs);
+	let q = if thorough { 8 } else { 1 };
+	pick(&inv_cfgs, &inv_bytes, "invoice", Kind::Invoice, 797 / q, &mut flip_jobs);
+	pick(&rinv_cfgs, &rinv_bytes, "refund-invoice", Kind::Invoice, if thorough { 997 } else { 211 }, &mut flip_jobs);
+	pick(&st_cfgs, &st_bytes, "static", Kind::StaticInvoice, if thorough { 1499 } else { 97 }, &mut flip_jobs);
+	pick(&offers, &offer_bytes, "offer", Kind::Offer, 2399 / q, &mut flip_jobs);
+	pick(&refunds, &refund_bytes, "refund", Kind::Refund, 911 / q, &mut flip_jobs);
 	for (k, _, _) in flip_jobs.iter() {
 		cx.stats.add(&format!("b12.flip.{}.objects", k.name()), 1);
 	}
